@@ -74,7 +74,10 @@ class Ctx(object):
         counts = {}
         for i in self.instances:
             counts[i.rule] = counts.get(i.rule, 0) + 1
+        bad_rules = {i.rule for i in self.instances if not i.ok}
         for rule, n in self.floors.items():
+            if rule in bad_rules:
+                continue   # a violated rule may stop early; the violation is the verdict
             if counts.get(rule, 0) < n:
                 raise AnalysisError("rule %s evaluated %d instance(s), fewer than the %d confirmed on the "
                                     "reference tree: the rule lost its anchors" % (rule, counts.get(rule, 0), n))
